@@ -34,6 +34,7 @@ def fMainRecvN : Nat := 13
 def fMainRecvT : Nat := 14
 def fMainShutdown : Nat := 15
 def fMainIdle : Nat := 16
+def fMainReader : Nat := 17
 
 /-- `proxy.stop()` as executed by the RPC worker: `QMI_TaskRunner.stop()` -/
 def mainStopper : Func := { code := [.call fRunnerStop, .halt], handlers := [] }
@@ -65,8 +66,14 @@ def mainRecvN : Func :=
 def mainRecvT : Func :=
   { code := [.ldConst true, .setTimed, .call fGet, .jmp 2], handlers := [⟨2, 3, 3, some .timeout⟩] }
 
+/-- a **bystander** blocked on the *same* receiver condition as the task: a plain thread (or another task that is not
+    being stopped — towards the shared condition it performs the same operations) calling `rx.get_next_signal(None)`
+    again and again -/
+def mainReader : Func :=
+  { code := [.ldConst false, .setTimed, .call fGet, .jmp 2], handlers := [⟨2, 3, 3, some .timeout⟩] }
+
 def mains : List Func :=
-  [mainStopper, mainPublisher, mainAny, mainLoop, mainSleep, mainRecvN, mainRecvT, mainShutdown, mainIdle]
+  [mainStopper, mainPublisher, mainAny, mainLoop, mainSleep, mainRecvN, mainRecvT, mainShutdown, mainIdle, mainReader]
 
 def funcs : List Func := Gen.SyncProgs.funcs ++ mains
 
@@ -75,7 +82,7 @@ def th0 (fn : Nat) (isTask : Bool) : Th :=
     timed := false, isTask := isTask, status := .run }
 
 def st0 (tstate : Nat) (ths : List Th) : St :=
-  { flag := false, wc := false, qlen := 0, lwcl := none, lsc := none, lqc := none, fin := 0, tstate := tstate, ths := ths }
+  { flag := false, wc := false, qlen := 0, lwcl := none, lsc := none, lqc := none, fin := 0, tstate := tstate, wq := [], ths := ths }
 
 /-- the stoppers: the first is `stop()`, every further one `_request_shutdown` -/
 def stoppers : Nat → List Th
@@ -84,13 +91,15 @@ def stoppers : Nat → List Th
 
 /-- `mkWith gen taskMain nStop publisher`: task thread 0, stoppers 1..nStop, then (optionally) the publisher -/
 def mkWith (gen : List Func) (taskMain : Nat) (nStop : Nat) (publisher : Bool) (cap : Nat := 1)
-    (tstate : Nat := Gen.SyncProgs.stRunning) : Sys :=
+    (tstate : Nat := Gen.SyncProgs.stRunning) (reader : Bool := false) : Sys :=
   { funcs := gen ++ mains, cap := cap, nStop := nStop,
     init := st0 tstate ([th0 taskMain true] ++ stoppers nStop
-                 ++ (if publisher then [th0 fMainPublisher false] else [])) }
+                 ++ (if publisher then [th0 fMainPublisher false] else [])
+                 ++ (if reader then [th0 fMainReader false] else [])) }
 
-def mk (taskMain : Nat) (nStop : Nat) (publisher : Bool) (cap : Nat := 1) (tstate : Nat := Gen.SyncProgs.stRunning) : Sys :=
-  mkWith Gen.SyncProgs.funcs taskMain nStop publisher cap tstate
+def mk (taskMain : Nat) (nStop : Nat) (publisher : Bool) (cap : Nat := 1) (tstate : Nat := Gen.SyncProgs.stRunning)
+    (reader : Bool := false) : Sys :=
+  mkWith Gen.SyncProgs.funcs taskMain nStop publisher cap tstate reader
 
 /-- stop request(s) reaching a task thread that is **not** running `task.run()`: `_state = tstate` -/
 def sysEarly (tstate : Nat) (nStop : Nat) : Sys := mk fMainIdle nStop false 1 tstate
@@ -145,6 +154,10 @@ def sysSleep2 : Sys := mk fMainSleep 2 false
 def sysTwo : Sys := mk fMainRecvN 2 false
 /-- the loop task and two concurrent stop requests -/
 def sysLoop2 : Sys := mk fMainLoop 2 false
+/-- `get_next_signal(None)`, one stop request, and a bystander waiting on the same condition (either FIFO order) -/
+def sysShareN : Sys := mk fMainRecvN 1 false 1 Gen.SyncProgs.stRunning true
+/-- `get_next_signal(t)`, one stop request, a bystander on the same condition and a publisher -/
+def sysShareT : Sys := mk fMainRecvT 1 true 1 Gen.SyncProgs.stRunning true
 /-- free mixture of the three waits, one stop request, a publisher -/
 def sysAny : Sys := mk fMainAny 1 true
 /-- free mixture, two stop requests, a publisher -/
